@@ -24,7 +24,7 @@ HINT_SETS = [
     ('UA', 'List[UA]'), ('Sequence[int]', 'int'), ('Literal[1, "a"]', 'Iterable[int]'), ('Type[UA]', 'Mapping[str, UA]'),
     ('Optional[List[int]]', 'Dict[str, List[UA]]'), ('Tuple[int, str]', 'FrozenSet[int]'), ('float', 'complex'),
     ('Deque[int]', 'KeysView[str]'), ('Union[List[int], Tuple[str, ...]]', 'UB'), ('Collection[UA]', 'Set[Optional[int]]'),
-    ('Annotated[int, IsEqual[1]]', 'Annotated[str, Is[lambda s: len(s) > 1]]'), ('UGenList[int]', 'Reversible[int]'),
+    ('Annotated[int, IsEqual[1]]', 'Annotated[str, Is[P1]]'), ('UGenList[int]', 'Reversible[int]'),
 ]
 
 HEADER = '''
@@ -33,7 +33,7 @@ from dataclasses import dataclass
 from beartype import beartype, BeartypeConf
 from bearverif.userclasses import UA, UB, UC, UGenList
 from beartype.vale import Is, IsEqual
-from bearverif.grammar import make_conf
+from bearverif.grammar import make_conf, P1, P2
 import functools
 CONF = make_conf({confkw!r})
 D = beartype(conf=CONF)
